@@ -115,6 +115,36 @@ def unusual_peer(ck, w, seed):
         ck.count('unusual_peer.consistent')
 
 
+def queued_while_busy(ck, w, seed, mons):
+    """Two or three local events arrive at ONE endpoint while an exchange of its own is in flight (they are queued, for an IKE_SA rekey handed over to the
+    successor and served from the loop); then everything is delivered. No exception may escape, and the usual quiescence conditions hold."""
+    import itertools
+    busy = ['rekey_ike', 'expire_soft', 'dpd', 'acquire', 'rekey_ike', 'rekey_ike'][w % 6]
+    combos = [c for n_ in (2, 3) for c in itertools.product(['acquire', 'expire_soft', 'expire_hard'], repeat=n_)]
+    events = combos[(w // 6) % len(combos)]
+    x = 'AB'[(w // 3) % 2]
+    sc = walk.Scenario(seed + w, mons, dict(WALK_CONFS[w % len(WALK_CONFS)]), n_children=2)
+    if not sc.ok:
+        ck.count('handshake_failed')
+        return
+    sc.sim.lossless_run = True
+    sc.sim.case['family'] = 'queued-while-busy'
+    sc.trigger(x, busy)
+    for ev in events:
+        sc.trigger(x, ev)
+    if w % 2:
+        sc.trigger('B' if x == 'A' else 'A', 'acquire')          # the other end is not idle either
+    sc.settle()
+    for _ in range(3):
+        sc.sim.tick_all(1.0)
+        sc.sim.drain()
+    sc.settle()
+    monitors.quiescence_check(ck, sc.sim, sc.a, sc.b, prefix='quiescence-queued')
+    ck.count('queued_while_busy.runs')
+    ck.seen('queued_while_busy.kinds', (busy, events))
+    ck.nontrivial(('queued', busy, events, x, w % 2))
+
+
 def run(ck):
     for w in range(60 if not ck.thorough() else 3000):
         if ck.mine(w):
@@ -122,6 +152,9 @@ def run(ck):
     col = monitors.CollisionMonitor(ck)
     mons = [col]
     seedbase = ck.seed * 1000003
+    for w in range(216 if not ck.thorough() else 6000):
+        if ck.mine(w):
+            queued_while_busy(ck, w, seedbase + 4242, mons)
 
     def leaf(sc, path):
         sc.settle()
@@ -173,6 +206,7 @@ def run(ck):
 
 def verdict(ck):
     ck.floor('runs against a conformant but unusual peer that ended consistent', ck.counters['unusual_peer.consistent'], 45)
+    ck.floor('histories with several local events queued while an exchange was in flight', ck.counters['queued_while_busy.runs'], 150)
     ck.floor('interleavings', ck.counters['interleavings'], 1200 if not ck.thorough() else 5000)
     ck.floor('ordered trigger pairs', ck.counters['pairs_explored'], 144)
     ck.floor('distinct (state, request kind) combinations', len(ck.sets['col.state_x_request']), 25)
